@@ -355,6 +355,23 @@ def hostTable : List String :=
     "пример.example", "xn--e1afmkfd.example", "MX.Example.ORG", "localhost",
     rep 90 "mx." ++ "example.org", ".example.org", "mx_1.example.org", rep 60 "ю" ++ ".example" ]
 
+/-- `V=<k><forms>.…`: while the server is down before attempt `k` the entry's meta-data is rewritten
+the way another build would have left it (unknown fields, other key order, white space, zero-valued
+fields left out).  Validated (`k` must be preceded by a restart or a read fault - a running server
+does not read its own meta-data back); the run model does not read it: the rewritten file holds the
+same `Stored` entry (`Model/QueueSpool.lean`, `C01_load_ignores_other_build`), and a restart is
+transparent. -/
+def parseOtherBuild (s : String) : Option (List Nat) :=
+  match s.toList with
+  | 'V' :: '=' :: rest =>
+    let one (f : String) : Option Nat :=
+      let ds := f.toList.takeWhile Char.isDigit
+      let fs := f.toList.dropWhile Char.isDigit
+      if !ds.isEmpty && !fs.isEmpty && fs.all (fun c => "acbdniozw".toList.contains c) then
+        (String.ofList ds).toNat? else none
+    ((String.ofList rest).splitOn ".").mapM one
+  | _ => none
+
 def parseClient (s : String) : Option (String × Bool) :=
   match s.toList with
   | 'C' :: '=' :: rest =>
@@ -379,6 +396,7 @@ structure Ext where
   env : Env := ⟨true, false, fun _ => false⟩
   forms : List (Char × Char) := []
   hdr : MaddyVerif.Queue.Header := [("Subject", "verif")]
+  other : List Nat := []
 
 /-- optional tokens, told apart by their prefix; `E=` and `X=` only after an `R=` token -/
 def parseExt (rs : List Nat) (toks : List String) : Option Ext :=
@@ -386,7 +404,7 @@ def parseExt (rs : List Nat) (toks : List String) : Option Ext :=
   | [] => some {}
   | r :: rest =>
     (parseRestarts r).bind (fun rr =>
-      rest.foldlM (fun (x : Ext) tok =>
+      (rest.foldlM (fun (x : Ext) (tok : String) =>
         if tok.startsWith "E=" then (parseEnv rs tok).map (fun e => { x with env := e })
         else if tok.startsWith "T=" then
           (parseFaults tok).bind (fun f =>
@@ -397,7 +415,10 @@ def parseExt (rs : List Nat) (toks : List String) : Option Ext :=
         else if tok.startsWith "F=" then (parseForeign tok).map (fun _ => x)
         else if tok.startsWith "C=" then (parseClient tok).map (fun c => { x with client := some c })
         else if tok.startsWith "Q=" then (parseHost tok).map (fun h => { x with host := h })
-        else none) { restarts := rr })
+        else if tok.startsWith "V=" then (parseOtherBuild tok).map (fun ks => { x with other := ks ++ x.other })
+        else none) { restarts := rr }).bind (fun x =>
+        -- V= only where a new instance reads the entry
+        if x.other.all (fun k => rr k > 0 || x.faults k > 0) then some x else none))
 
 end ext
 
